@@ -180,7 +180,7 @@ theorem srcVal_ok {κ : Nat → String} {s : State} (h : InvK κ s) {key : Strin
 /-- result of the broadcast step: a (copied) literal with leading length `n`, or the very array. -/
 def BcastRes (s : State) (n : Nat) (src src' : Src) : Prop :=
   (∃ lv t, src' = .lit lv ∧ lv.shape = n :: t ∧ (ValOK (srcVal s src) → ValOK lv) ∧
-      ∀ c ∈ lv.data, c ∈ (srcVal s src).data) ∨
+      (∀ c ∈ lv.data, c ∈ (srcVal s src).data) ∧ lv.dt = (srcVal s src).dt ∧ t = (srcVal s src).shape.tail) ∨
   (∃ a, src = .arr a ∧ src' = .arr a ∧ a.idx.length = n)
 
 theorem viewBcast_cases (s : State) (n : Nat) (src : Src) :
@@ -189,10 +189,11 @@ theorem viewBcast_cases (s : State) (n : Nat) (src : Src) :
   unfold viewBcast
   simp only []
   split
-  · split
+  · rename_i hsh
+    split
     · rename_i flat hflat
       right
-      refine ⟨_, rfl, Or.inl ⟨_, [], rfl, rfl, ?_, bcast_mem _ _ _ hflat⟩⟩
+      refine ⟨_, rfl, Or.inl ⟨_, [], rfl, rfl, ?_, bcast_mem _ _ _ hflat, rfl, by rw [hsh]; rfl⟩⟩
       exact fun hv => ⟨bcast_length _ _ _ hflat, fun c hc => hv.2 c (bcast_mem _ _ _ hflat c hc)⟩
     · left; exact ⟨_, rfl⟩
   · rename_i d t hshape
@@ -200,7 +201,7 @@ theorem viewBcast_cases (s : State) (n : Nat) (src : Src) :
     · split
       · rename_i flat hflat
         right
-        refine ⟨_, rfl, Or.inl ⟨_, t, rfl, rfl, ?_, bcast_mem _ _ _ hflat⟩⟩
+        refine ⟨_, rfl, Or.inl ⟨_, t, rfl, rfl, ?_, bcast_mem _ _ _ hflat, rfl, by rw [hshape]; rfl⟩⟩
         exact fun hv => ⟨bcast_length _ _ _ hflat, fun c hc => hv.2 c (bcast_mem _ _ _ hflat c hc)⟩
       · left; exact ⟨_, rfl⟩
     · split
@@ -213,7 +214,7 @@ theorem viewBcast_cases (s : State) (n : Nat) (src : Src) :
         | lit v =>
           left
           simp only [srcVal] at hshape
-          exact ⟨v, t, rfl, by rw [hshape, hdn], fun hv => hv, fun c hc => hc⟩
+          exact ⟨v, t, rfl, by rw [hshape, hdn], fun hv => hv, fun c hc => hc, rfl, by simp only [srcVal]; rw [hshape]; rfl⟩
         | arr a =>
           right
           simp only [srcVal, arrVal] at hshape
@@ -304,7 +305,7 @@ theorem inv_viewSet {κ : Nat → String} {s : State} (h : InvK κ s) (o : Nat) 
       · left; simp [allSel]; omega
   · -- new key
     rename_i hfind
-    rcases hres with ⟨lv, t, rfl, hshape, hlvok, hmem⟩ | ⟨a, rfl, rfl, hlen⟩
+    rcases hres with ⟨lv, t, rfl, hshape, hlvok, hmem, _, _⟩ | ⟨a, rfl, rfl, hlen⟩
     · -- a literal (the caller's, or the materialised broadcast): fresh buffer
       simp only []
       rw [post_bind]
